@@ -2,7 +2,7 @@
 # usage: tryseed.sh <seed dir containing patch.diff, seeded_demo_test.go> <property...>
 # confirms the seeded change (builds, suite passes, demo fails with / passes without) and runs the given checks on it
 set -u
-D="$1"; shift
+D="$(cd "$1" && pwd)"; shift
 export GOFLAGS=-mod=mod GOPROXY=off GOSUMDB=off GOTOOLCHAIN=local
 S=$(mktemp -d /tmp/tryseed.XXXXXX)
 rsync -a --exclude .git /repo/ "$S/repo/"
